@@ -743,7 +743,7 @@ def c14(r):
     r.rule = ("TLC model-checks MC_Holiday (state = record set; Fix with 1-2 segments over a 6-day universe with interleaved targets; "
               "the four views partition the set, a Fix changes exactly the named days, workday stepping lands on a working day with |n| passed) "
               "and %s of its depth-2 behaviours are replayed on the real HolidayUtil (VerifReset, Fix, raw records of the touched years, "
-              "a digest of all other records, the views of the touched years/targets, workday steps around the touched days). On the built-in "
+              "a digest of all other records, the views of the touched years/targets, workday steps of up to 9 days around the touched days; every sixth behaviour ends with a names-only fix-up (12 names) followed by adding, replacing and removing records with name indices 9..11, views re-read each time). On the built-in "
               "table: every day 2000-2027 by day (three accessors), every month, year and target view, Next(n, workday) from every day "
               "2001-2026 for n in {+-1..+-15}, GetSalaryRate every day. The trace specification carries the record set, loaded from the raw "
               "18-byte records. Distinct non-trivial case = distinct (day or view) query or distinct Fix behaviour." %
@@ -845,10 +845,10 @@ def c09(r):
               "order of the model (%s) is forced on real goroutines through the blocking gate hook and the hook trace is folded through the "
               "protocol by Trace_Cache; every call sequence of length <= %d over an alphabet of 10 calls (3 years incl. a leap-11 year, month "
               "walking across years, two invalid calls that panic and are recovered) is executed in one process and each result compared with "
-              "its reference; each of 16 calls is also made as the very first library call of a fresh process and compared with itself warm; a battery of 15 000 table lookups and conversions is executed by four processes in four different orders and their per-family digests must agree; a -race build runs 16 goroutines of mixed calls plus rounds of 8 goroutines reading one fresh shared object, "
+              "its reference; each of 16 calls is also made as the very first library call of a fresh process and compared with itself warm; fresh processes make the first use of every accessor from 16 goroutines released together at a barrier and compare with the single-goroutine values (a runtime abort 'concurrent map ...' whose innermost non-runtime frame is library code is a rejection); a battery of 15 000 table lookups and conversions is executed by four processes in four different orders and their per-family digests must agree; a -race build runs 16 goroutines of mixed calls plus rounds of 8 goroutines reading one fresh shared object, "
               "race reports become events that no action accepts. Every public non-setter method of 21 object types is called twice on sample "
               "objects with a digest of all accessors of the receiver before and after (a call must not change its receiver and must repeat its "
-              "result); one letter of the history alphabet writes garbage through every setter of every object the accessors hand out. Session.tla specifies the whole mutable state a client can see (date objects with "
+              "result); one letter of the history alphabet writes garbage through every setter of every object the accessors hand out (holiday records included), and every sample object must read the same after every setter of every object it handed out was called. Session.tla specifies the whole mutable state a client can see (date objects with "
               "their chart convention, chart handles as views, the holiday table) and which call may change which part; TLC checks the frame "
               "conditions (%s) and enumerates every session of 4 calls (Create / Handle / SetSect / Fix / Rename / recovered panic; 33 172), %s of which are "
               "executed on real objects with a digest of every accessor of every live object after every call: an object nobody touched and a "
